@@ -147,6 +147,22 @@ def _after_transitions(P):
                                       patterns=[g(k)]), using=['parity', 'cnt-after-g'])
 
 
+def _loop_entry(P):
+    E, env, b, d, tr, n, g, cnt, t, bz, bp = _facts(P)
+    too_short = env['too_short']
+    son, soff = env['_zip0'], env['_zip1']
+    Q = son.n
+    ckey = [kk for kk in E.st.ghost.get('cmap_axioms', {}) if kk[1] == too_short.ident][0]
+    mQ, G, cntG = E.st.ghost[ckey]
+    P.register('AXG', E.st.ghost['cmap_axioms'][ckey])          # assumed contract of boolean-mask selection
+    p = z3.Int('lp')
+    SON = lambda x: _ti(E.rd(son, x))
+    SOFF = lambda x: _ti(E.rd(soff, x))
+    P.have('selected-bounds', z3.ForAll([p], z3.Implies(z3.And(0 <= p, p < Q),
+                                                        z3.And(0 <= SON(p), SON(p) <= SOFF(p), SOFF(p) <= n)), patterns=[G(p)]),
+           using=['AXG', 'AX', 'cnt-after-g', 't-even'])
+
+
 def _before_return(P):
     E, env = P.E, P.env
     if 'transitions' not in env:
@@ -247,7 +263,8 @@ contract(
     ],
     modifies=['is_burst'],
     result=_same_array_havoc('is_burst'),
-    proof={('after_assign', 'transitions'): _after_transitions, ('before_return',): _before_return},
+    proof={('after_assign', 'transitions'): _after_transitions, ('loop_entry', 1): _loop_entry,
+           ('before_return',): _before_return},
     ensures_using=['post'],
     loops={1: dict(index='q', using=['selected-bounds'], invariant=[
         "len(is_burst) == len(old(is_burst))",
